@@ -49,8 +49,14 @@ pub fn oracle(p: &SoftStopPlan, o: &MuxOutcome) -> Vec<Violation> {
         }
     }
     let resp_of = |id: u64| -> (u64, u16) { match &p.mux.clusters[0].backend { MuxBackend::H1(b) => b.responses.get(&id).map_or((3, 200), |r| (r.body.len() as u64, r.status)), MuxBackend::H2(b) => b.responses.get(&id).map_or((3, 200), |r| (r.body.len as u64, r.status)) } };
+    // "completed (within the graceful deadline)": once the configured deadline has passed since the soft stop, cutting
+    // what is left is what the operator asked for (unset = 5 s by default, 0 = wait for ever)
+    let deadline_ns = match p.mux.h2_deadline_secs { None => 5 * SEC, Some(0) => u64::MAX, Some(d) => d as u64 * SEC };
+    let stop_took = o.softstop_final.map_or(0, |(t, _)| t.saturating_sub(o.softstop_sent_t));
+    let deadline_passed = deadline_ns != u64::MAX && stop_took + 200 * MS >= deadline_ns;
     for (ci, c) in p.mux.h2_clients.iter().enumerate() {
         let rec = &o.h2_clients[ci];
+        if deadline_passed { break; }
         if rec.connect_err.is_some() { continue; } // refused: the listener was already closed, nothing was in flight
         if let Some(t) = &rec.tls { if !t.handshake_done { continue; } }
         for r in c.requests() {
@@ -75,7 +81,11 @@ pub fn oracle(p: &SoftStopPlan, o: &MuxOutcome) -> Vec<Violation> {
                 let dir = if r.body.len > 0 { "upload" } else { "download" };
                 // plan-level trigger of the recorded finding C10-S1 (see known_findings.json): an upload of more than one
                 // DATA frame is in flight and the script has further requests, which reach sozu while it drains
-                let trig = if c.requests().len() >= 2 && c.requests()[0].body.len > 16384 { "upload_first_then_more_requests" } else { "none" };
+                // C15-G (recorded): HEADERS without END_HEADERS on a stream that is refused, followed by its CONTINUATION,
+                // is answered with GOAWAY(PROTOCOL_ERROR); during a drain every new stream is refused
+                // one plan-level trigger for the two recorded defects of "a stream that arrives while sozu drains is refused":
+                // C10-S1 (a large upload is mid-frame) and C10-S2 = C15-G (the refused request continues in CONTINUATION frames)
+                let trig = if c.requests().len() >= 2 && (c.requests()[0].body.len > 16384 || c.requests().iter().skip(1).any(|q| !q.cont_split.is_empty())) { "later_streams_refused_during_drain" } else { "none" };
                 let key = |s: &str| if trig == "none" { format!("{s}|h2_deadline={dl}") } else { format!("{s}|{trig}") };
                 v.push(Violation::new("request_cut", key(&format!("h2:{what};{dir};end={end}{}", if fully_sent { "" } else { ";request_not_fully_sent" })), format!("h2 request #{} in flight at soft stop (sent {} ms after connect, soft stop at +{} ms): status={:?} body {} of {want_len} complete={} aborted={:?} goaways={:?} eof={} t_end={}", r.id, st.map_or(0, |s| s.t_open.saturating_sub(rec.t_connect)) / MS, p.mux.soft_stop_at_ns.unwrap_or(0) / MS, obs.status, obs.body_len, obs.complete, obs.aborted, rec.goaways.iter().map(|g| (g.last_stream, g.code)).collect::<Vec<_>>(), rec.eof, obs.t_end)));
             }
@@ -84,6 +94,7 @@ pub fn oracle(p: &SoftStopPlan, o: &MuxOutcome) -> Vec<Violation> {
     }
     for (ci, c) in p.mux.h1_clients.iter().enumerate() {
         let oc = &o.h1_clients[ci];
+        if deadline_passed { break; }
         if oc.rec.connect_err.is_some() { continue; }
         for (ri, r) in c.requests.iter().enumerate() {
             // a request the client had started to send must be answered completely; one it never started
